@@ -52,7 +52,7 @@ def _digest(cfile, config):
     h = hashlib.sha256()
     h.update(('v7|' + config + '|' + ' '.join(BASE_FLAGS + CONFIGS[config])).encode())
     for p in [os.path.join(REPO, 'src', cfile)] + sorted(glob.glob(os.path.join(REPO, 'src', '*.h'))):
-        h.update(p.encode())
+        h.update(os.path.basename(p).encode())
         h.update(open(p, 'rb').read())
     return h.hexdigest()[:32]
 
